@@ -316,6 +316,17 @@ Theorem C16_stale_release_example :
 Proof. exact stale_release_example. Qed.
 Print Assumptions C16_stale_release_example.
 
+(* a further UtpTransportService.Start() (one per sub-network sharing the service) leaves the slots as they are: the
+   stale-handle theorems above quantify over sequences that contain PopRestart anywhere *)
+Theorem C16_restart_keeps_slots : forall limit st, pop_step limit st PopRestart = Ok (fst st, snd st, true).
+Proof. exact restart_keeps_slots. Qed.
+Print Assumptions C16_restart_keeps_slots.
+
+Theorem C16_restart_scenario :
+  pops_run 1 [PopGet; PopGet; PopRestart; PopGet] (0, []) = Ok [(true, 1); (false, 1); (true, 1); (false, 1)].
+Proof. exact restart_scenario. Qed.
+Print Assumptions C16_restart_scenario.
+
 Example C16_nonvacuous :
   out_events true (OGot (PWorker STalkErr)) = [Acquire; Release] /\
   out_events false (OGot (PWorker STalkErr)) = [Acquire] /\
